@@ -86,6 +86,7 @@ func checkTagRouting(c tagCase) (nt bool, v *verdict2) {
 		nt = true
 	}
 	m0, _ := w.Redirects()
+	tainted := map[string]bool{}
 	for si, st := range c.Steps {
 		tag := c.Tags[st.Tag%len(c.Tags)]
 		k := tagKey(tag, st.Key%keysPerTag)
@@ -109,6 +110,10 @@ func checkTagRouting(c tagCase) (nt bool, v *verdict2) {
 			if _, ok := model[k]; ok {
 				want = ref.IntV(1)
 			}
+		case "EVAL", "eval", "Eval", "eVAL":
+			// a script with one key: routed by KEYS[1] like any keyed command (the simulated node answers with a digest of the arguments)
+			args = []string{st.Cmd, "return redis.call('get', KEYS[1])", "1", k}
+			want = ref.Value{}
 		default:
 			args = []string{"GET", k}
 			if val, ok := model[k]; ok {
@@ -121,7 +126,15 @@ func checkTagRouting(c tagCase) (nt bool, v *verdict2) {
 		if err != nil {
 			return nt, &verdict2{"no-reply", fmt.Sprintf("step %d %v: %v", si, args, err)}
 		}
-		if !ref.Equal(got, want) {
+		isEval := len(args) == 4 && len(args[0]) == 4 && (args[0][1] == 'v' || args[0][1] == 'V')
+		if isEval {
+			tainted[k] = true // the simulated node executes scripts by its digest rule: the key's content is not modelled from here on
+		}
+		if isEval || tainted[k] {
+			if got.IsErr() && (len(got.S) >= 5 && (string(got.S[:5]) == "MOVED" || string(got.S[:3]) == "ASK")) {
+				return nt, &verdict2{"reply-differs", fmt.Sprintf("step %d %v: answered %s", si, args, got)}
+			}
+		} else if !ref.Equal(got, want) {
 			return nt, &verdict2{"reply-differs", fmt.Sprintf("step %d %v (tag %q, slot %d): answered %s, a single server answers %s", si, args, tag, slot, got, want)}
 		}
 		first := true
@@ -162,7 +175,7 @@ func TestTagRouting(t *testing.T) {
 		}
 		for i, n := 0, rapid.IntRange(1, 40).Draw(t, "steps"); i < n; i++ {
 			c.Steps = append(c.Steps, tagStep{Tag: rapid.IntRange(0, nt-1).Draw(t, "stag"), Key: rapid.IntRange(0, keysPerTag-1).Draw(t, "skey"),
-				Cmd: rapid.SampledFrom([]string{"GET", "GET", "SET", "EXISTS", "APPEND"}).Draw(t, "cmd")})
+				Cmd: rapid.SampledFrom([]string{"GET", "GET", "SET", "EXISTS", "APPEND", "EVAL", "eval", "Eval", "eVAL"}).Draw(t, "cmd")})
 		}
 		vh.CurrentCase(prop, "tagrouting", c)
 		ntv, v := checkTagRouting(c)
